@@ -52,6 +52,7 @@ type PathSummary struct {
 	Asserts []string
 	Events []string
 	Access []AccessRec
+	Spawns map[string]SpawnInfo
 }
 
 type Result struct {
@@ -554,7 +555,7 @@ func (r *Result) merge(o *Result) {
 func (e *Engine) newBaseState() *State {
 	return &State{heap: map[int]*Object{}, epoch: newEpoch(), globals: map[*ssa.Global]int{},
 		inited: map[*ssa.Package]bool{}, reached: map[string]bool{}, ghost: map[string]int64{}, thread: "main",
-		trackAccess: e.Cfg.TrackAccess}
+		trackAccess: e.Cfg.TrackAccess, curGor: Gor{isMain: true, thread: "main"}}
 }
 
 func (e *Engine) runPath() {
@@ -577,6 +578,9 @@ func (e *Engine) runPath() {
 		for len(st.frames) > 0 {
 			e.step()
 		}
+		if n := e.unfinishedOthers(); n > 0 {
+			st.events = append(st.events, fmt.Sprintf("goroutines-left:%d", n))
+		}
 		end = "return"
 	}()
 	e.finishPath(end)
@@ -594,7 +598,7 @@ func (e *Engine) finishPath(end string) {
 	for k := range st.reached {
 		e.Res.Reached[k] = true
 	}
-	ps := PathSummary{ID: st.ID, End: end, Inputs: st.inputs, Obs: st.obs, PCLen: len(st.pc), Steps: st.steps, Asserts: st.asserts, Events: st.events, Access: st.access}
+	ps := PathSummary{ID: st.ID, End: end, Inputs: st.inputs, Obs: st.obs, PCLen: len(st.pc), Steps: st.steps, Asserts: st.asserts, Events: st.events, Access: st.access, Spawns: st.spawns}
 	want := e.Cfg.WitnessEvery > 0 && (e.Res.NPaths%e.Cfg.WitnessEvery == 0 || len(e.Res.Paths) < 8)
 	if want && end == "return" {
 		ok, m := e.sat(true)
@@ -623,6 +627,7 @@ func (e *Engine) step() {
 	st := e.st
 	fr := st.top()
 	st.steps++
+	st.progress++
 	if st.steps > e.Cfg.MaxSteps {
 		panic(engineErr{"bound", fmt.Sprintf("step budget %d exceeded", e.Cfg.MaxSteps)})
 	}
